@@ -55,9 +55,17 @@ Fixpoint chain (key : list L) : option lvl :=
   | k :: r => match chain r with Some c => Some (Node [k] [c]) | None => None end
   end.
 
-(* IndexLevelGO.append below the depth check: walk down the LAST child while the key's label is
-   CONTAINED in the node's index (index_level.py:895-901 -- contained, not "is the last label");
-   at the first depth where it is not, append the label there and hang the new branch below it.
+Fixpoint last_opt (l : list L) : option L :=
+  match l with [] => None | [x] => Some x | _ :: r => last_opt r end.
+
+(* the key's label is the LAST label of this node's index (node.index._loc_to_iloc(k) == len - 1) *)
+Definition is_last (k : L) (ls : list L) : bool :=
+  match last_opt ls with Some x => leq k x | None => false end.
+
+(* IndexLevelGO.append below the depth check (index_level.py:895-906, after fix 5320f59): walk down the
+   LAST child while the key's label is contained in the node's index -- and, at an inner node, IS its last
+   label, otherwise RuntimeError before anything is mutated; at the first depth where the label is not
+   contained, append it there and hang the new branch below it.
    All labels found -> RuntimeError('unable to set depth_not_found'). *)
 Fixpoint M_lappend (t : lvl) (key : list L) : res lvl :=
   match t with
@@ -70,6 +78,7 @@ Fixpoint M_lappend (t : lvl) (key : list L) : res lvl :=
       match key with
       | k :: r =>
           if mem k ls then
+            if negb (is_last k ls) then Err "RuntimeError" else
             match
               (fix on_last (ks : list lvl) : res (list lvl) :=
                  match ks with
@@ -174,32 +183,6 @@ Definition S_hstep_ok (depth : Z) (before : list (list L)) (op : hop) (out : out
 (* duplicates and wrong-depth labels must be rejected *)
 Definition S_hstep_must_reject (depth : Z) (before : list (list L)) (op : hop) : bool :=
   negb (tfresh_all before (hop_given op)) || negb (forallb (fun k => zlen k =? depth) (hop_given op)).
-
-(* guard of the refinement: the key's labels, as long as they are found, are the LAST labels of the
-   nodes on the last edge *)
-Fixpoint last_opt (l : list L) : option L :=
-  match l with [] => None | [x] => Some x | _ :: r => last_opt r end.
-
-Fixpoint on_last_edge (t : lvl) (key : list L) : bool :=
-  match t with
-  | Leaf _ => true
-  | Node ls kids =>
-      match key with
-      | k :: r =>
-          if mem k ls then
-            match last_opt ls with
-            | Some x => leq k x &&
-                (fix on_last (ks : list lvl) : bool :=
-                   match ks with
-                   | [] => false
-                   | c :: rest => match rest with [] => on_last_edge c r | _ => on_last rest end
-                   end) kids
-            | None => false
-            end
-          else true
-      | [] => true
-      end
-  end.
 
 End Hier.
 
